@@ -151,7 +151,7 @@ func (im *impl) apply(o op, m *model) {
 			st.Close()
 		}
 	case "attachrtp", "attachflv":
-		st := media.Get(spell[i])
+		st := media.GetOrCreate(spell[i])
 		if st == nil {
 			return
 		}
@@ -277,6 +277,17 @@ func compare(m *model, im *impl) (string, string) {
 		}
 		if got != want {
 			return "lookup-differs", fmt.Sprintf("Get(%q) = stream %d, reference says %d", lp, got, want)
+		}
+		// the lookup every player uses (no route is configured, so it must agree with Get)
+		got2 := -1
+		if s := media.GetOrCreate(lp); s != nil {
+			got2 = idx(s)
+			if s.VerifStatus() != media.StreamOK {
+				return "getorcreate-returns-closed-stream", fmt.Sprintf("GetOrCreate(%q) returned stream %d whose status is %d (closed)", lp, got2, s.VerifStatus())
+			}
+		}
+		if got2 != want {
+			return "getorcreate-differs", fmt.Sprintf("GetOrCreate(%q) = stream %d, reference says %d", lp, got2, want)
 		}
 	}
 	for i := range im.s {
